@@ -61,7 +61,7 @@ def run(ctx):
     def add(kind, rq, expect_sig_ok):
         cases.append(dict(config=CFG, request=rq.wire()))
         meta.append((kind, rq, expect_sig_ok))
-    nb = 10 if ctx.quick else 120
+    nb = 12 if ctx.quick else 120
     contents = [b"hello", b"", b"\r\n", b"\r\n--", b"a\r\n--BOUND", b"\r\r\n-", b"line1\r\nline2\r\n", bytes(range(256)), b"--", b"\r\n--x\r\n"]
     for it in range(nb):
         boundary = rng.choice(["----VerifBoundary7MA4YWxk", "BOUND", "b", "x-y_z"])
@@ -71,9 +71,13 @@ def run(ctx):
             boundary = "----VerifBoundary7MA4YWxk"
             content = content.replace(b"\r\n--" + boundary.encode(), b"")
         key = rng.choice(["uploads/a b.txt", "uploads/é.bin", "k", "uploads/../x", "uploads/${filename}"])
-        extra = rng.choice([[], [("x-amz-meta-a", "1"), ("X-Amz-Meta-B", "two words")], [("Content-Type", "text/plain"), ("acl", "public-read")],
-                            [("x-amz-meta-a", "1"), ("x-amz-meta-a", "2")], [("unknown-field", "zzz")], [("success_action_status", "201")],
+        extras = ([[], [("x-amz-meta-a", "1"), ("X-Amz-Meta-B", "two words")], [("Content-Type", "text/plain"), ("acl", "public-read")],
+                            [("x-amz-meta-a", "1"), ("x-amz-meta-a", "2")], [("x-amz-meta-a", "2"), ("x-amz-meta-a", "1")],      # of a repeated field the last one counts
+                            [("X-Amz-Meta-C", "zz"), ("x-amz-meta-c", "mm"), ("x-amz-meta-C", "aa")], [("Content-Type", "text/zzz"), ("content-type", "text/aaa")],
+                            [("unknown-field", "zzz")], [("success_action_status", "201")],
                             [("x-amz-meta-", "empty-name")], [("Key", "uploads/upper-case-name")]])
+        rng.choice(extras)
+        extra = extras[it % len(extras)]          # every kind of extra field in every run
         after = rng.choice([None, None, [("submit", "Upload to Amazon S3")], [("x-amz-meta-late", "after-file")]])
         frames = (lambda body: G.partition(rng, body)) if rng.chance(1, 2) else None
         variant = rng.choice(["ok", "ok", "ok", "expired", "cond-bucket", "cond-key", "cond-eq", "cond-len", "no-conditions"])
@@ -94,6 +98,11 @@ def run(ctx):
         rq = R.post_form(now, key=key, content=content, fields_extra=extra, boundary=boundary, after_file=after, frames=frames,
                          conditions=conds, expiration=expiration)
         add("form:" + variant, rq, True)
+        if it < 6:
+            # blanks at the edges of a field value are part of the value: the key is stored as written, two such keys are two objects
+            k2 = ["reports/q3.txt ", " index.html", "a.txt", "a.txt ", "  both sides  ", "tab\tinside and end\t"][it]
+            add("form:edge-blanks", R.post_form(now, key=k2, content=content, boundary="----VerifBoundary7MA4YWxk",
+                                                fields_extra=[("x-amz-meta-note", " padded value "), ("Cache-Control", " max-age=60 ")]), True)
         if it % 3 == 0:
             # frame borders inside the delimiter that ends the file part, for contents with CR near their end
             c2 = rng.choice([b"line1\r\nline2\r\n", b"a,b\r\nc,d\r\n", b"\r\r\r", rng.bytes(20) + b"\r" + rng.bytes(3), b"x\r\n-\r"])
